@@ -3023,7 +3023,8 @@ MANIFEST = {
             "int_norm_conv applied to its own result changes nothing) -- on terms whose powers have atomic bases (atomicPowers; "
             "decided by the driver op isnfi on every generated input, and every real simp_full output is checked against the shape "
             "isNFI by the driver op isnfishape). NOT proved: injectivity normal form -> polynomial, hence same polynomial => same "
-            "normal form (int_norm_canonical) and the canonicity of int_norm_eq (int_norm_eq_canonical). "
+            "normal form (int_norm_canonical) and the canonicity of int_norm_eq (int_norm_eq_canonical); it can hold only for "
+            "exponents >= 1, since model and code both keep i ^ 0 (normal form i ^ 0, not 1; example in PropsInt.lean). "
             "For (6) and (7) canonicity is compared against the independent exact-rational evaluator on cancellation-rich pairs "
             "every run, as are the decisions of nat_norm, real_norm, int_eq_macro and int_norm_eq; proplogic.norm_full / sort_conj / "
             "sort_disj on member sets (oracle only). Fast evaluation against checked proof term for every Conv class overriding "
